@@ -43,13 +43,22 @@ BASE = ["initialize", "initialized", "supported", "unknownreq", "docnote", "unkn
 CODES = {-32002: 1, -32600: 2, -32601: 3}
 
 
-def frames(session):
+IDMAP = None     # position -> request id; None = the position itself
+
+
+def odd_ids(n):
+    """request ids a client may legally use: negative, zero, the ends of the i32 range - all different"""
+    pool = [-1, 0, -2147483648, 2147483647, -7, 1000000007, -2147483647, 2147483646]
+    return {pos: (pool[pos - 1] if pos <= len(pool) else -pos * 1000) for pos in range(1, n + 1)}
+
+
+def frames(session, idmap=None):
     out = []
     for pos, sym in enumerate(session, 1):
         isreq, _, method, params = SYMS[sym]
         m = {"jsonrpc": "2.0", "method": method}
         if isreq:
-            m["id"] = pos
+            m["id"] = idmap[pos] if idmap else pos
         if params is not None:
             m["params"] = params
         out.append(lspclient.frame(m))
@@ -61,8 +70,10 @@ def command(session, clean=True, upto=None):
     return "3 %d " % (1 if clean else 0) + " ".join("%d %d" % SYMS[s][:2] for s in syms)
 
 
-def observe(exe, data, timeout=6.0):
-    """feeds `data` then end-of-input; returns (encoding list or None on hang, seconds to exit)"""
+def observe(exe, data, timeout=6.0, idmap=None):
+    """feeds `data` then end-of-input; returns (encoding list or None on hang, seconds to exit); with `idmap` the response ids
+    are translated back to message positions (an id the client never used stays as it is)"""
+    back = {v: k for k, v in idmap.items()} if idmap else None
     s = lspclient.Server(exe)
     try:
         s.send_raw(data)
@@ -79,6 +90,8 @@ def observe(exe, data, timeout=6.0):
         resps = [m for m in msgs if "id" in m and "method" not in m]
         out.append(len(resps))
         for m in resps:
+            if back is not None:
+                m = dict(m, id=back.get(m.get("id"), m.get("id")))
             if "error" in m and "result" not in m:
                 out += [m["id"], CODES.get(m["error"].get("code"), 9)]
             elif "result" in m and "error" not in m and m.get("jsonrpc") == "2.0":
@@ -184,6 +197,12 @@ def gen(ctx):
             body.insert(ctx.rng.randrange(len(body)), "format")
         sess = ["initialize", "initialized", "docnote"] + body + (["shutdown", "exit"] if ctx.rng.random() < 0.7 else [])
         cases.append(("request-kinds", sess, b"".join(frames(sess)), command(sess)))
+    # the same kind of sessions with request ids from all over the i32 range (negative, zero, extremes)
+    for _ in range(200 if ctx.thorough() else 40):
+        body = [ctx.rng.choice(BASE) for _ in range(ctx.rng.randint(1, 6))]
+        sess = (["initialize", "initialized"] if ctx.rng.random() < 0.8 else []) + body
+        im = odd_ids(len(sess))
+        cases.append(("odd-ids", sess, b"".join(frames(sess, im)), command(sess), im))
     # every byte prefix of some sessions, followed by end-of-input
     for _ in range(20 if ctx.thorough() else 6):
         body = [ctx.rng.choice(BASE) for _ in range(ctx.rng.randint(2, 5))]
@@ -210,7 +229,7 @@ def run(ctx):
     expected = common.run_lines(judge, [c[3] for c in cases]) if judge else None
 
     def one(c):
-        return observe(exe, c[2])
+        return observe(exe, c[2], idmap=(c[4] if len(c) > 4 else None))
 
     with ThreadPoolExecutor(4) as ex:
         obs = list(ex.map(one, cases))
@@ -224,12 +243,13 @@ def run(ctx):
     # no alarms from timing: a deviation counts only if it reproduces in three fresh processes
     confirmed = []
     for i in sorted(bad, key=lambda i: len(cases[i][2]))[:40]:
-        again = [observe(exe, cases[i][2], timeout=15.0) for _ in range(3)]
+        again = [observe(exe, cases[i][2], timeout=15.0, idmap=(cases[i][4] if len(cases[i]) > 4 else None)) for _ in range(3)]
         gots = [" ".join(map(str, a[0])) if a[0] is not None else None for a in again]
         if all(g != expected[i] for g in gots):
             confirmed.append((i, gots, [a[2] for a in again]))
     for i, gots, whys in confirmed[:3]:
         ctx.violation(dict(kind="oracle", property="C18", session=cases[i][1], origin=cases[i][0],
+                           request_ids=({str(k): v for k, v in cases[i][4].items()} if len(cases[i]) > 4 else None),
                            bytes=cases[i][2].decode("utf-8", "replace"),
                            expected_by_specification=expected[i], observed=gots, notes=whys,
                            encoding="status, #responses, then (id, 0=result 1=ServerNotInitialized 2=InvalidRequest 3=MethodNotFound)*",
@@ -299,7 +319,8 @@ def replay(ctx, path):
         print(json.dumps(r, indent=1))
         return 1
     data = r["bytes"].encode("utf-8")
-    got, dt, why = observe(exe, data, 15.0)
+    im = {int(k): v for k, v in r["request_ids"].items()} if r.get("request_ids") else None
+    got, dt, why = observe(exe, data, 15.0, idmap=im)
     print("observed:", got, why or "")
     print("expected:", r["expected_by_specification"])
     return 0 if got is not None and " ".join(map(str, got)) == r["expected_by_specification"] else 1
